@@ -90,6 +90,44 @@ static void do_xxh_big(hctx* h, uint64_t len, uint64_t seed) {
     h->n_lines++; n_xxh++; n_xxh_ge32++;
 }
 
+/* filters whose size does not fit 32 bits (the bit array is untouched calloc memory: address space, hardly any RAM): the
+ * size is the request rounded up to whole blocks, inserted values are found, values never inserted into an empty region
+ * are not, and the filter written out announces and delivers its full size (into a no-reserve mapping) */
+static void do_bloom_huge(hctx* h, uint64_t req, int full) {
+    fprintf(h->out, "bloom_huge req=%llu full=%d", (unsigned long long)req, full); h_call(h);
+    carquet_bloom_filter_t* f = carquet_bloom_filter_create((size_t)req);
+    if (!f) { fprintf(h->out, " | skipped=1 triv=1\n"); h->n_lines++; return; }
+    uint64_t want = (req + 31) / 32 * 32;
+    int ok_size = (uint64_t)carquet_bloom_filter_size(f) == want;
+    int ok_in = 1, ok_fresh = 1;
+    for (int64_t v = -3; v < 40; v++) if (carquet_bloom_filter_check_i64(f, v * 1000003)) ok_fresh = 0;
+    for (int64_t v = -3; v < 40; v++) carquet_bloom_filter_insert_i64(f, v * 1000003);
+    for (int64_t v = -3; v < 40; v++) if (!carquet_bloom_filter_check_i64(f, v * 1000003)) ok_in = 0;
+    /* the 43 values occupy at most 43 of 2^27 blocks: a probe of other values hits one of them with probability < 2^-20 */
+    int stray = 0; for (int64_t v = 100; v < 140; v++) if (carquet_bloom_filter_check_i64(f, v * 7919 + 1)) stray++;
+    int ok_write = 1;
+    if (full) {
+        void* m = mmap(NULL, (size_t)want + 4096, PROT_READ | PROT_WRITE, MAP_PRIVATE | MAP_ANONYMOUS | MAP_NORESERVE, -1, 0);
+        if (m != MAP_FAILED) {
+            /* too small by one block must be refused, the exact size accepted, and the reloaded filter is the same filter */
+            size_t wrote = 0;
+            if (carquet_bloom_filter_write(f, (uint8_t*)m, (size_t)want - 32, &wrote) == CARQUET_OK) ok_write = 0;
+            if (carquet_bloom_filter_write(f, (uint8_t*)m, (size_t)want, &wrote) != CARQUET_OK || (uint64_t)wrote != want) ok_write = 0;
+            else {
+                carquet_bloom_filter_t* g = carquet_bloom_filter_from_data((const uint8_t*)m, (size_t)want);
+                if (!g || (uint64_t)carquet_bloom_filter_size(g) != want) ok_write = 0;
+                for (int64_t v = -3; g && v < 40; v++) if (!carquet_bloom_filter_check_i64(g, v * 1000003)) ok_write = 0;
+                if (g) carquet_bloom_filter_destroy(g);
+            }
+            munmap(m, (size_t)want + 4096);
+        }
+    }
+    fprintf(h->out, " | size=%llu stray=%d p_size_rounded=%d p_no_false_negative=%d p_fresh_rejects=%d p_few_strays=%d p_write_reload=%d\n",
+            (unsigned long long)carquet_bloom_filter_size(f), stray, ok_size, ok_in, ok_fresh, stray <= 2, ok_write);
+    carquet_bloom_filter_destroy(f);
+    h->n_lines++;
+}
+
 /* ---------------------------------------------------------------- items ---- */
 
 typedef struct { char kind; int64_t i; uint64_t u; uint8_t* b; size_t nb; } item;
@@ -395,6 +433,8 @@ static void gen_bloom(hctx* h) {
     }
     free(buf);
     do_xxh_big(h, (1ull << 32) + 13, 0);
+    do_bloom_huge(h, (1ull << 32) + 1, 0);
+    if (h->thorough) { do_bloom_huge(h, (1ull << 32) - 31, 1); do_bloom_huge(h, (1ull << 32) + 33, 1); }
     if (h->thorough) { do_xxh_big(h, (1ull << 32) - 33, 1); do_xxh_big(h, (1ull << 33) + 64, 2654435761ull); }
 
     /* 2. size rounding, incl. the requests whose rounding would wrap size_t */
@@ -474,6 +514,7 @@ static int replay_bloom(hctx* h, const h_line* l) {
         size_t n; uint8_t* d = h_unhex(h_in(l, "data"), &n);
         do_xxh(h, d, n, strtoull(h_in(l, "seed") ? h_in(l, "seed") : "0", NULL, 10), 0); free(d); return 1;
     }
+    if (!strcmp(l->op, "bloom_huge")) { do_bloom_huge(h, strtoull(h_in(l, "req"), NULL, 10), (int)h_ll(h_in(l, "full"))); return 1; }
     if (!strcmp(l->op, "xxhbig")) {
         do_xxh_big(h, strtoull(h_in(l, "len"), NULL, 10), strtoull(h_in(l, "seed") ? h_in(l, "seed") : "0", NULL, 10)); return 1;
     }
